@@ -1,13 +1,24 @@
-//! "serde-doc": a bounded, allocation-free serde document and a `Deserializer` over it.
+//! "serde-doc": bounded, allocation-free serde documents and `Deserializer`s over them.
 //!
-//! It stands where `serde_json_wasm::Deserializer` stands at run time; the JSON *text* layer is
-//! outside every claim (DESIGN §1 P5).  Shapes are concrete per harness instance, string bytes and
-//! scalar values are symbolic.
+//! They stand where `serde_json_wasm::Deserializer` stands at run time; the JSON *text* layer is
+//! outside every claim (DESIGN §1 P5).
+//!
+//! Every document shape is its own plain struct with *const-generic* sizes — no recursive enum, no
+//! run-time lengths.  (A first version used one recursive `enum V { Map(&[(&str, V)]), .. }`: CBMC
+//! then could not resolve the variant tags read back through the slices, unwound the
+//! Value -> map -> entry -> Value recursion to the full bound on every path and did not finish;
+//! with concrete struct fields symbolic execution is linear.)
+//!
+//!   Sc                 scalar: number or bool
+//!   Obj<K>             { k1: s1, .., kK: sK }            (flat object of scalars: message bodies,
+//!                                                         instantiate / migrate messages)
+//!   Msg<K>             { name: Obj<K> }                  (exec / query / sudo messages)
+//!   NameSc             { name: scalar }
+//!   Pair<K1, K2>       { n1: Obj<K1>, n2: Obj<K2> }      (two top-level keys)
+//!   TopStr, TopNull, TopNum, Empty0                      "name", null, 5, {}
 
 use core::fmt;
-use serde::de::{
-    self, DeserializeSeed, Deserializer, EnumAccess, MapAccess, SeqAccess, VariantAccess, Visitor,
-};
+use serde::de::{self, DeserializeSeed, Deserializer, EnumAccess, MapAccess, VariantAccess, Visitor};
 use serde::forward_to_deserialize_any;
 
 /// Error with a coarse code, no text.
@@ -61,178 +72,417 @@ impl serde::ser::Error for E {
     }
 }
 
-/// A JSON-like value over borrowed data.
-#[derive(Clone, Copy)]
-pub enum V<'a> {
-    Null,
-    Bool(bool),
-    U64(u64),
-    Str(&'a str),
-    Map(&'a [(&'a str, V<'a>)]),
-    Seq(&'a [V<'a>]),
+macro_rules! fwd_all_but_any {
+    () => {
+        forward_to_deserialize_any! { bool u8 u16 u32 u64 i8 i16 i32 i64 i128 u128 f32 f64 char str string unit seq
+        bytes byte_buf map unit_struct newtype_struct tuple_struct struct tuple identifier option enum ignored_any }
+    };
 }
 
-struct StrDe<'a>(&'a str);
+// ---- strings (keys, variant names) ---------------------------------------------------------------
+
+#[derive(Clone, Copy)]
+pub struct StrDe<'a>(pub &'a str);
 
 impl<'de, 'a> Deserializer<'de> for StrDe<'a> {
     type Error = E;
     fn deserialize_any<Vi: Visitor<'de>>(self, visitor: Vi) -> Result<Vi::Value, E> {
         visitor.visit_str(self.0)
     }
-    forward_to_deserialize_any! { bool u8 u16 u32 u64 i8 i16 i32 i64 i128 u128 f32 f64 char str string unit seq
-    bytes byte_buf map unit_struct newtype_struct tuple_struct struct tuple identifier option enum ignored_any }
+    fwd_all_but_any!();
 }
 
-struct MapDe<'a> {
-    m: &'a [(&'a str, V<'a>)],
+// ---- scalars -----------------------------------------------------------------------------------------
+
+/// A JSON number (`is_bool == false`) or boolean.
+#[derive(Clone, Copy)]
+pub struct Sc {
+    pub is_bool: bool,
+    pub v: u64,
+}
+
+pub const fn num(v: u64) -> Sc {
+    Sc { is_bool: false, v }
+}
+pub const fn boolean(b: bool) -> Sc {
+    Sc {
+        is_bool: true,
+        v: b as u64,
+    }
+}
+
+impl<'de> Deserializer<'de> for Sc {
+    type Error = E;
+    fn deserialize_any<Vi: Visitor<'de>>(self, visitor: Vi) -> Result<Vi::Value, E> {
+        if self.is_bool {
+            visitor.visit_bool(self.v != 0)
+        } else {
+            visitor.visit_u64(self.v)
+        }
+    }
+    fn deserialize_option<Vi: Visitor<'de>>(self, visitor: Vi) -> Result<Vi::Value, E> {
+        visitor.visit_some(self)
+    }
+    fn deserialize_newtype_struct<Vi: Visitor<'de>>(self, _n: &'static str, visitor: Vi) -> Result<Vi::Value, E> {
+        visitor.visit_newtype_struct(self)
+    }
+    fn deserialize_enum<Vi: Visitor<'de>>(
+        self,
+        _n: &'static str,
+        _vs: &'static [&'static str],
+        _visitor: Vi,
+    ) -> Result<Vi::Value, E> {
+        Err(E::InvalidType)
+    }
+    /// `IgnoredAny` discards whatever it is given.
+    fn deserialize_ignored_any<Vi: Visitor<'de>>(self, visitor: Vi) -> Result<Vi::Value, E> {
+        visitor.visit_unit()
+    }
+    forward_to_deserialize_any! { bool u8 u16 u32 u64 i8 i16 i32 i64 i128 u128 f32 f64 char str string unit seq
+    bytes byte_buf map unit_struct tuple_struct struct tuple identifier }
+}
+
+// ---- flat object of scalars ------------------------------------------------------------------------
+
+#[derive(Clone, Copy)]
+pub struct Obj<'a, const K: usize> {
+    pub keys: [&'a str; K],
+    pub vals: [Sc; K],
+}
+
+pub struct ObjAcc<'a, const K: usize> {
+    o: Obj<'a, K>,
     i: usize,
 }
 
-impl<'de, 'a> MapAccess<'de> for MapDe<'a> {
+impl<'de, 'a, const K: usize> MapAccess<'de> for ObjAcc<'a, K> {
     type Error = E;
-    fn next_key_seed<K: DeserializeSeed<'de>>(&mut self, seed: K) -> Result<Option<K::Value>, E> {
-        if self.i < self.m.len() {
-            seed.deserialize(StrDe(self.m[self.i].0)).map(Some)
+    fn next_key_seed<S: DeserializeSeed<'de>>(&mut self, seed: S) -> Result<Option<S::Value>, E> {
+        if self.i < K {
+            seed.deserialize(StrDe(self.o.keys[self.i])).map(Some)
         } else {
             Ok(None)
         }
     }
     fn next_value_seed<S: DeserializeSeed<'de>>(&mut self, seed: S) -> Result<S::Value, E> {
-        let v = self.m[self.i].1;
+        let v = self.o.vals[self.i];
         self.i += 1;
         seed.deserialize(v)
     }
 }
 
-struct SeqDe<'a> {
-    s: &'a [V<'a>],
-    i: usize,
-}
+/// Body of an enum variant given as a scalar (`{name: 5}`).
+pub struct ScVariant(Sc);
 
-impl<'de, 'a> SeqAccess<'de> for SeqDe<'a> {
+impl<'de> VariantAccess<'de> for ScVariant {
     type Error = E;
-    fn next_element_seed<T: DeserializeSeed<'de>>(&mut self, seed: T) -> Result<Option<T::Value>, E> {
-        if self.i < self.s.len() {
-            let v = self.s[self.i];
-            self.i += 1;
-            seed.deserialize(v).map(Some)
-        } else {
-            Ok(None)
-        }
+    fn unit_variant(self) -> Result<(), E> {
+        Err(E::InvalidType)
+    }
+    fn newtype_variant_seed<T: DeserializeSeed<'de>>(self, seed: T) -> Result<T::Value, E> {
+        seed.deserialize(self.0)
+    }
+    fn tuple_variant<Vi: Visitor<'de>>(self, _l: usize, _v: Vi) -> Result<Vi::Value, E> {
+        Err(E::InvalidType)
+    }
+    fn struct_variant<Vi: Visitor<'de>>(self, _f: &'static [&'static str], _v: Vi) -> Result<Vi::Value, E> {
+        Err(E::InvalidType)
     }
 }
 
-struct EnumDe<'a> {
+pub struct ScEnum<'a> {
     name: &'a str,
-    body: Option<V<'a>>,
+    sc: Sc,
 }
 
-impl<'de, 'a> EnumAccess<'de> for EnumDe<'a> {
+impl<'de, 'a> EnumAccess<'de> for ScEnum<'a> {
     type Error = E;
-    type Variant = VarDe<'a>;
-    fn variant_seed<S: DeserializeSeed<'de>>(self, seed: S) -> Result<(S::Value, VarDe<'a>), E> {
-        let var = VarDe(self.body);
+    type Variant = ScVariant;
+    fn variant_seed<S: DeserializeSeed<'de>>(self, seed: S) -> Result<(S::Value, ScVariant), E> {
+        let var = ScVariant(self.sc);
         seed.deserialize(StrDe(self.name)).map(|x| (x, var))
     }
 }
 
-struct VarDe<'a>(Option<V<'a>>);
-
-impl<'de, 'a> VariantAccess<'de> for VarDe<'a> {
+impl<'de, 'a, const K: usize> Deserializer<'de> for Obj<'a, K> {
     type Error = E;
-    fn unit_variant(self) -> Result<(), E> {
-        match self.0 {
-            None | Some(V::Null) => Ok(()),
-            _ => Err(E::InvalidType),
-        }
-    }
-    fn newtype_variant_seed<T: DeserializeSeed<'de>>(self, seed: T) -> Result<T::Value, E> {
-        match self.0 {
-            Some(v) => seed.deserialize(v),
-            None => Err(E::InvalidType),
-        }
-    }
-    fn tuple_variant<Vi: Visitor<'de>>(self, _l: usize, visitor: Vi) -> Result<Vi::Value, E> {
-        match self.0 {
-            Some(V::Seq(s)) => visitor.visit_seq(SeqDe { s, i: 0 }),
-            _ => Err(E::InvalidType),
-        }
-    }
-    fn struct_variant<Vi: Visitor<'de>>(
-        self,
-        _f: &'static [&'static str],
-        visitor: Vi,
-    ) -> Result<Vi::Value, E> {
-        match self.0 {
-            Some(V::Map(m)) => visitor.visit_map(MapDe { m, i: 0 }),
-            _ => Err(E::InvalidType),
-        }
-    }
-}
-
-impl<'de, 'a> Deserializer<'de> for V<'a> {
-    type Error = E;
-
     fn deserialize_any<Vi: Visitor<'de>>(self, visitor: Vi) -> Result<Vi::Value, E> {
-        match self {
-            V::Null => visitor.visit_unit(),
-            V::Bool(b) => visitor.visit_bool(b),
-            V::U64(n) => visitor.visit_u64(n),
-            V::Str(s) => visitor.visit_str(s),
-            V::Map(m) => visitor.visit_map(MapDe { m, i: 0 }),
-            V::Seq(s) => visitor.visit_seq(SeqDe { s, i: 0 }),
-        }
+        visitor.visit_map(ObjAcc { o: self, i: 0 })
     }
-
     fn deserialize_option<Vi: Visitor<'de>>(self, visitor: Vi) -> Result<Vi::Value, E> {
-        match self {
-            V::Null => visitor.visit_none(),
-            _ => visitor.visit_some(self),
-        }
+        visitor.visit_some(self)
     }
-
+    /// A flat object sent where an enum is expected: one entry -> `{variant: scalar}`.
     fn deserialize_enum<Vi: Visitor<'de>>(
         self,
         _n: &'static str,
         _vs: &'static [&'static str],
         visitor: Vi,
     ) -> Result<Vi::Value, E> {
-        match self {
-            V::Map(m) => {
-                if m.len() != 1 {
-                    return Err(E::InvalidLength);
-                }
-                visitor.visit_enum(EnumDe {
-                    name: m[0].0,
-                    body: Some(m[0].1),
-                })
-            }
-            V::Str(s) => visitor.visit_enum(EnumDe {
-                name: s,
-                body: None,
-            }),
-            _ => Err(E::InvalidType),
+        if K != 1 {
+            return Err(E::InvalidLength);
         }
+        visitor.visit_enum(ScEnum {
+            name: self.keys[0],
+            sc: self.vals[0],
+        })
     }
-
-    fn deserialize_newtype_struct<Vi: Visitor<'de>>(
-        self,
-        _n: &'static str,
-        visitor: Vi,
-    ) -> Result<Vi::Value, E> {
-        visitor.visit_newtype_struct(self)
-    }
-
-    /// `IgnoredAny` discards whatever it is given; answering directly removes a recursion.
     fn deserialize_ignored_any<Vi: Visitor<'de>>(self, visitor: Vi) -> Result<Vi::Value, E> {
         visitor.visit_unit()
     }
-
     forward_to_deserialize_any! { bool u8 u16 u32 u64 i8 i16 i32 i64 i128 u128 f32 f64 char str string unit seq
-    bytes byte_buf map unit_struct tuple_struct struct tuple identifier }
+    bytes byte_buf map unit_struct newtype_struct tuple_struct struct tuple identifier }
 }
 
+// ---- { name: { .. } } ---------------------------------------------------------------------------------
+
+#[derive(Clone, Copy)]
+pub struct Msg<'a, const K: usize> {
+    pub name: &'a str,
+    pub body: Obj<'a, K>,
+}
+
+pub struct MsgAcc<'a, const K: usize> {
+    m: Msg<'a, K>,
+    done: bool,
+}
+
+impl<'de, 'a, const K: usize> MapAccess<'de> for MsgAcc<'a, K> {
+    type Error = E;
+    fn next_key_seed<S: DeserializeSeed<'de>>(&mut self, seed: S) -> Result<Option<S::Value>, E> {
+        if !self.done {
+            seed.deserialize(StrDe(self.m.name)).map(Some)
+        } else {
+            Ok(None)
+        }
+    }
+    fn next_value_seed<S: DeserializeSeed<'de>>(&mut self, seed: S) -> Result<S::Value, E> {
+        self.done = true;
+        seed.deserialize(self.m.body)
+    }
+}
+
+pub struct ObjVariant<'a, const K: usize>(Obj<'a, K>);
+
+impl<'de, 'a, const K: usize> VariantAccess<'de> for ObjVariant<'a, K> {
+    type Error = E;
+    fn unit_variant(self) -> Result<(), E> {
+        Err(E::InvalidType)
+    }
+    fn newtype_variant_seed<T: DeserializeSeed<'de>>(self, seed: T) -> Result<T::Value, E> {
+        seed.deserialize(self.0)
+    }
+    fn tuple_variant<Vi: Visitor<'de>>(self, _l: usize, _v: Vi) -> Result<Vi::Value, E> {
+        Err(E::InvalidType)
+    }
+    fn struct_variant<Vi: Visitor<'de>>(self, _f: &'static [&'static str], visitor: Vi) -> Result<Vi::Value, E> {
+        visitor.visit_map(ObjAcc { o: self.0, i: 0 })
+    }
+}
+
+pub struct MsgEnum<'a, const K: usize>(Msg<'a, K>);
+
+impl<'de, 'a, const K: usize> EnumAccess<'de> for MsgEnum<'a, K> {
+    type Error = E;
+    type Variant = ObjVariant<'a, K>;
+    fn variant_seed<S: DeserializeSeed<'de>>(self, seed: S) -> Result<(S::Value, ObjVariant<'a, K>), E> {
+        let var = ObjVariant(self.0.body);
+        seed.deserialize(StrDe(self.0.name)).map(|x| (x, var))
+    }
+}
+
+impl<'de, 'a, const K: usize> Deserializer<'de> for Msg<'a, K> {
+    type Error = E;
+    fn deserialize_any<Vi: Visitor<'de>>(self, visitor: Vi) -> Result<Vi::Value, E> {
+        visitor.visit_map(MsgAcc { m: self, done: false })
+    }
+    fn deserialize_option<Vi: Visitor<'de>>(self, visitor: Vi) -> Result<Vi::Value, E> {
+        visitor.visit_some(self)
+    }
+    fn deserialize_enum<Vi: Visitor<'de>>(
+        self,
+        _n: &'static str,
+        _vs: &'static [&'static str],
+        visitor: Vi,
+    ) -> Result<Vi::Value, E> {
+        visitor.visit_enum(MsgEnum(self))
+    }
+    fn deserialize_ignored_any<Vi: Visitor<'de>>(self, visitor: Vi) -> Result<Vi::Value, E> {
+        visitor.visit_unit()
+    }
+    forward_to_deserialize_any! { bool u8 u16 u32 u64 i8 i16 i32 i64 i128 u128 f32 f64 char str string unit seq
+    bytes byte_buf map unit_struct newtype_struct tuple_struct struct tuple identifier }
+}
+
+// ---- { name: scalar } -----------------------------------------------------------------------------------
+
+#[derive(Clone, Copy)]
+pub struct NameSc<'a> {
+    pub name: &'a str,
+    pub sc: Sc,
+}
+
+impl<'de, 'a> Deserializer<'de> for NameSc<'a> {
+    type Error = E;
+    fn deserialize_any<Vi: Visitor<'de>>(self, visitor: Vi) -> Result<Vi::Value, E> {
+        visitor.visit_map(ObjAcc {
+            o: Obj {
+                keys: [self.name],
+                vals: [self.sc],
+            },
+            i: 0,
+        })
+    }
+    fn deserialize_enum<Vi: Visitor<'de>>(
+        self,
+        _n: &'static str,
+        _vs: &'static [&'static str],
+        visitor: Vi,
+    ) -> Result<Vi::Value, E> {
+        visitor.visit_enum(ScEnum {
+            name: self.name,
+            sc: self.sc,
+        })
+    }
+    fn deserialize_ignored_any<Vi: Visitor<'de>>(self, visitor: Vi) -> Result<Vi::Value, E> {
+        visitor.visit_unit()
+    }
+    forward_to_deserialize_any! { bool u8 u16 u32 u64 i8 i16 i32 i64 i128 u128 f32 f64 char str string unit seq
+    bytes byte_buf map unit_struct newtype_struct tuple_struct struct tuple identifier option }
+}
+
+// ---- { n1: {..}, n2: {..} } ---------------------------------------------------------------------------
+
+#[derive(Clone, Copy)]
+pub struct Pair<'a, const K1: usize, const K2: usize> {
+    pub first: Msg<'a, K1>,
+    pub second: Msg<'a, K2>,
+}
+
+pub struct PairAcc<'a, const K1: usize, const K2: usize> {
+    p: Pair<'a, K1, K2>,
+    i: u8,
+}
+
+impl<'de, 'a, const K1: usize, const K2: usize> MapAccess<'de> for PairAcc<'a, K1, K2> {
+    type Error = E;
+    fn next_key_seed<S: DeserializeSeed<'de>>(&mut self, seed: S) -> Result<Option<S::Value>, E> {
+        match self.i {
+            0 => seed.deserialize(StrDe(self.p.first.name)).map(Some),
+            1 => seed.deserialize(StrDe(self.p.second.name)).map(Some),
+            _ => Ok(None),
+        }
+    }
+    fn next_value_seed<S: DeserializeSeed<'de>>(&mut self, seed: S) -> Result<S::Value, E> {
+        let i = self.i;
+        self.i += 1;
+        if i == 0 {
+            seed.deserialize(self.p.first.body)
+        } else {
+            seed.deserialize(self.p.second.body)
+        }
+    }
+}
+
+impl<'de, 'a, const K1: usize, const K2: usize> Deserializer<'de> for Pair<'a, K1, K2> {
+    type Error = E;
+    fn deserialize_any<Vi: Visitor<'de>>(self, visitor: Vi) -> Result<Vi::Value, E> {
+        visitor.visit_map(PairAcc { p: self, i: 0 })
+    }
+    /// serde_json(-wasm) reads one key/value and then expects the closing brace.
+    fn deserialize_enum<Vi: Visitor<'de>>(
+        self,
+        _n: &'static str,
+        _vs: &'static [&'static str],
+        _visitor: Vi,
+    ) -> Result<Vi::Value, E> {
+        Err(E::InvalidLength)
+    }
+    fn deserialize_ignored_any<Vi: Visitor<'de>>(self, visitor: Vi) -> Result<Vi::Value, E> {
+        visitor.visit_unit()
+    }
+    forward_to_deserialize_any! { bool u8 u16 u32 u64 i8 i16 i32 i64 i128 u128 f32 f64 char str string unit seq
+    bytes byte_buf map unit_struct newtype_struct tuple_struct struct tuple identifier option }
+}
+
+// ---- "name", null, 5, {} ----------------------------------------------------------------------------------
+
+#[derive(Clone, Copy)]
+pub struct TopStr<'a>(pub &'a str);
+
+pub struct UnitOnly;
+impl<'de> VariantAccess<'de> for UnitOnly {
+    type Error = E;
+    fn unit_variant(self) -> Result<(), E> {
+        Ok(())
+    }
+    fn newtype_variant_seed<T: DeserializeSeed<'de>>(self, _seed: T) -> Result<T::Value, E> {
+        Err(E::InvalidType)
+    }
+    fn tuple_variant<Vi: Visitor<'de>>(self, _l: usize, _v: Vi) -> Result<Vi::Value, E> {
+        Err(E::InvalidType)
+    }
+    fn struct_variant<Vi: Visitor<'de>>(self, _f: &'static [&'static str], _v: Vi) -> Result<Vi::Value, E> {
+        Err(E::InvalidType)
+    }
+}
+pub struct StrEnum<'a>(&'a str);
+impl<'de, 'a> EnumAccess<'de> for StrEnum<'a> {
+    type Error = E;
+    type Variant = UnitOnly;
+    fn variant_seed<S: DeserializeSeed<'de>>(self, seed: S) -> Result<(S::Value, UnitOnly), E> {
+        seed.deserialize(StrDe(self.0)).map(|x| (x, UnitOnly))
+    }
+}
+
+impl<'de, 'a> Deserializer<'de> for TopStr<'a> {
+    type Error = E;
+    fn deserialize_any<Vi: Visitor<'de>>(self, visitor: Vi) -> Result<Vi::Value, E> {
+        visitor.visit_str(self.0)
+    }
+    fn deserialize_enum<Vi: Visitor<'de>>(
+        self,
+        _n: &'static str,
+        _vs: &'static [&'static str],
+        visitor: Vi,
+    ) -> Result<Vi::Value, E> {
+        visitor.visit_enum(StrEnum(self.0))
+    }
+    forward_to_deserialize_any! { bool u8 u16 u32 u64 i8 i16 i32 i64 i128 u128 f32 f64 char str string unit seq
+    bytes byte_buf map unit_struct newtype_struct tuple_struct struct tuple identifier option ignored_any }
+}
+
+#[derive(Clone, Copy)]
+pub struct TopNull;
+
+impl<'de> Deserializer<'de> for TopNull {
+    type Error = E;
+    fn deserialize_any<Vi: Visitor<'de>>(self, visitor: Vi) -> Result<Vi::Value, E> {
+        visitor.visit_unit()
+    }
+    fn deserialize_option<Vi: Visitor<'de>>(self, visitor: Vi) -> Result<Vi::Value, E> {
+        visitor.visit_none()
+    }
+    fn deserialize_enum<Vi: Visitor<'de>>(
+        self,
+        _n: &'static str,
+        _vs: &'static [&'static str],
+        _visitor: Vi,
+    ) -> Result<Vi::Value, E> {
+        Err(E::InvalidType)
+    }
+    forward_to_deserialize_any! { bool u8 u16 u32 u64 i8 i16 i32 i64 i128 u128 f32 f64 char str string unit seq
+    bytes byte_buf map unit_struct newtype_struct tuple_struct struct tuple identifier ignored_any }
+}
+
+/// A bare number at top level is `Sc` itself.
+pub type TopNum = Sc;
+
+/// `{}`
+pub type Empty0<'a> = Obj<'a, 0>;
+pub const EMPTY0: Obj<'static, 0> = Obj { keys: [], vals: [] };
+
 /// Decode `T` from a document.
-pub fn decode<'a, T: serde::Deserialize<'a>>(v: V<'a>) -> Result<T, E> {
-    T::deserialize(v)
+pub fn decode<'de, T: serde::Deserialize<'de>, D: Deserializer<'de, Error = E>>(d: D) -> Result<T, E> {
+    T::deserialize(d)
 }
